@@ -1114,7 +1114,6 @@ func (api *API) parseCidOrError(w http.ResponseWriter, r *http.Request) *types.P
 		return nil
 	}
 	pin := types.PinWithOpts(c, opts)
-	pin.MaxDepth = -1 // For now, all pins are recursive
 	return pin
 }
 
